@@ -6,7 +6,7 @@ from __future__ import annotations
 from ..loader import AnalysisError, short
 from ..normal import ge_form, linear, strip_cast, ext_name
 from ..report import Result
-from ..terms import NONE, T, const, mk, show
+from ..terms import NONE, T, const, mk, show, uncopy
 from .common import (TIME_LIMITED, analyses, env_site, get_tree, last_conditions, leaves, step_types,
                      timestep_kind, txt)
 
@@ -90,6 +90,23 @@ def check(tier: str) -> Result:
                         ok, why = True, "default if None"
                 elif c is P and strip_cast(a) is P:
                     ok, why = True, "time_limit if time_limit else default"
+            elif v.kind == "phi" and len(v.args[0]) == 2:
+                # statement form: `if <test on time_limit>: time_limit = <default>` (or the mirrored form)
+                from ..terms import contains as _contains
+                from .common import norm_cond
+                tests = [norm_cond(uncopy(ev.target), True) for ev in v_init.events
+                         if ev.kind == "py_branch" and ev.name == "if" and ev.target is not None and _contains(ev.target, P)]
+                a, b = (strip_cast(x) for x in v.args[0])    # value on the then-path, value on the else-path
+                if len(tests) == 1:
+                    t_, pol = tests[0]
+                    is_none_test = t_.kind == "cmp" and t_.args[0] == "is" and t_.args[1] is P and t_.args[2] is NONE
+                    # then-path runs when: P is None (pol True) / P falsy (t_ is P, pol False)
+                    then_is_default = (is_none_test and pol) or (t_ is P and not pol)
+                    then_is_param = (is_none_test and not pol) or (t_ is P and pol)
+                    if (then_is_default and b is P and a is not P) or (then_is_param and a is P and b is not P):
+                        ok, why = True, ("default if None" if is_none_test else "time_limit if time_limit else default") + " (statement form)"
+                        v = mk("choice", "ifexp", uncopy([ev.target for ev in v_init.events if ev.kind == "py_branch" and ev.name == "if" and ev.target is not None and _contains(ev.target, P)][0]),
+                               (a, b))
             if ok is None:
                 from ..terms import contains
                 if not contains(v, P):
